@@ -164,7 +164,8 @@ namespace Givaro{
         Element& mul(Element& r, const Element& a, const Element& b) const;
 
         Element& div(Element& r, const Element& a, const Element& b) const{
-            return mulin(inv(r, b), a);
+            Element ib; // r may be the same object as a
+            return mul(r, a, inv(ib, b));
         }
         Element& add(Element& r, const Element& a, const Element& b) const {
             r = a + b;
